@@ -19,7 +19,40 @@ import model
 import pipefam
 
 
+OBS_TIMEOUT_S = int(os.environ.get('VERIF_OBS_TIMEOUT_S', 60))
+
+
+def _alarm(_sig, _frm):
+    import canon
+    if os.environ.get('VERIF_DEBUG_HANG'):
+        import faulthandler
+        with open('/tmp/verif_hang_%d.txt' % os.getpid(), 'w') as f:
+            faulthandler.dump_traceback(file=f)
+    raise canon.Hang()
+
+
 def _observe(req):
+    """one observation of the implementation; an observation that does not come back within
+    OBS_TIMEOUT_S (normal ones take milliseconds) is reported as {'hang': True}"""
+    import canon
+    import signal
+    import threading
+    timed = threading.current_thread() is threading.main_thread()
+    if timed:
+        old = signal.signal(signal.SIGALRM, _alarm)
+        signal.alarm(OBS_TIMEOUT_S)
+    try:
+        return _observe_inner(req)
+    except canon.Hang:
+        return {'hang': True, 'build': 'hang'}
+    finally:
+        if timed:
+            signal.alarm(0)
+            signal.signal(signal.SIGALRM, old)
+            common.gc_point()
+
+
+def _observe_inner(req):
     try:
         mode = req.get('source_mode', 'pickle')
         if mode != 'pickle':
@@ -242,6 +275,9 @@ def run(pp, rep):
         if 'harness_error' in a:
             harness_errors += 1
             continue
+        if a.get('hang'):
+            oracle_fails.append((p, 'no_termination', {'timeout_s': OBS_TIMEOUT_S}, a))
+            continue
         for o in set(G.ops_of(p)):
             dist[o] = dist.get(o, 0) + 1
         dp = G.depth_of(p)
@@ -272,6 +308,8 @@ def run(pp, rep):
         req = pipefam.make_request(p)
         req['source_mode'] = mode
         obs = _observe(req)
+        if obs.get('hang'):
+            return [('no_termination', {'timeout_s': OBS_TIMEOUT_S})], obs
         return [(c, d) for c, d in pp.oracle(p, obs)
                 if pp.known(p, obs, c, d, findings) is None], obs
 
